@@ -281,4 +281,80 @@ Section StreamFetchProofs.
       split; [exact Hwc|]. right. exists n, (take len b). split; assumption.
     - destruct (drop_temp_inv f f1 tf Hc Ht) as [Hgc Hgt]. split; [exact Hgc|]. left. exact Hgt.
   Qed.
+
+  (* ---------------------------------------------------------------- the whole network part of a lookup *)
+  Notation lookup_stream := (lookup_stream L llen PS init_ps recog bump lineno T finish split p).
+
+  Definition resp_ok (sr : server * resp) : Prop :=
+    match snd sr with
+    | RHead _ b script => split_ok b /\ delivered script = Z.of_nat (length b)
+    | RNoHead => True
+    end.
+  Definition ids (l : list (server * resp)) : list Z := map (fun sr => s_id (fst sr)) l.
+
+  Lemma commit_post_eq : forall f0 f1 f' b u, cache_eq f1 f0 -> commit_post p f1 f' b u -> commit_post p f0 f' b u.
+  Proof.
+    intros f0 f1 f' b u Hc [H|[H|[H [c Hc1]]]]; [left; exact H|right; left; rewrite H; apply Hc|].
+    right. right. split; [exact H|]. exists c. rewrite <- Hc. exact Hc1.
+  Qed.
+
+  Lemma lookup_stream_cases : forall ss f, Forall resp_ok ss ->
+    let f' := fst (fst (lookup_stream f ss)) in
+    tmp f' = tmp f /\ (forall q, q <> p -> cache f' q = cache f q) /\
+    match snd (fst (lookup_stream f ss)) with
+    | None => cache_eq f' f /\ snd (lookup_stream f ss) = ids ss
+    | Some (t, u) =>
+        exists pre s code b script post,
+          ss = pre ++ (s, RHead code b script) :: post /\ u = s_url s /\ code < 400 /\ fails script = false /\
+          (exists ps x, drive_stream (fst (split b)) (snd (split b)) script = Ret (C09.Model.ROk ps, x) /\
+                        finish ps = Some t /\ cbsum (core x) = Z.of_nat (length b)) /\
+          commit_post p f f' b u /\
+          snd (lookup_stream f ss) = ids (pre ++ [(s, RHead code b script)])
+    end.
+  Proof.
+    induction ss as [|[s r] rest IH]; intros f Hok; cbn [Stream.lookup_stream].
+    - cbn [fst snd]. split; [reflexivity|]. split; [reflexivity|]. split; [intros q; reflexivity|reflexivity].
+    - inversion Hok as [|x l Hr Hrest]; subst.
+      (* what happens when this server is skipped with the file system [g], cache_eq g f, tmp g = tmp f *)
+      assert (Hskip : forall g, cache_eq g f -> tmp g = tmp f ->
+                let R := (let '(g', res, lg) := lookup_stream g rest in (g', res, s_id s :: lg)) in
+                tmp (fst (fst R)) = tmp f /\ (forall q, q <> p -> cache (fst (fst R)) q = cache f q) /\
+                match snd (fst R) with
+                | None => cache_eq (fst (fst R)) f /\ snd R = ids ((s, r) :: rest)
+                | Some (t, u) =>
+                    exists pre s0 code b script post,
+                      (s, r) :: rest = pre ++ (s0, RHead code b script) :: post /\ u = s_url s0 /\ code < 400 /\
+                      fails script = false /\
+                      (exists ps x, drive_stream (fst (split b)) (snd (split b)) script = Ret (C09.Model.ROk ps, x) /\
+                                    finish ps = Some t /\ cbsum (core x) = Z.of_nat (length b)) /\
+                      commit_post p f (fst (fst R)) b u /\
+                      snd R = ids (pre ++ [(s0, RHead code b script)])
+                end).
+      { intros g Hgc Hgt. specialize (IH g Hrest). cbv zeta in IH.
+        destruct (lookup_stream g rest) as [[g' res] lg]. cbn [fst snd] in *.
+        destruct IH as [I1 [I2 I3]]. split; [rewrite I1; exact Hgt|]. split; [intros q Hq; rewrite I2 by exact Hq; apply Hgc|].
+        destruct res as [[t u]|].
+        - destruct I3 as [pre [s0 [code [b [script [post [E [Eu [Hcode [Hfl [Hdr [Hpost Hlg]]]]]]]]]]]].
+          exists ((s, r) :: pre), s0, code, b, script, post.
+          split; [rewrite E; reflexivity|]. split; [exact Eu|]. split; [exact Hcode|]. split; [exact Hfl|].
+          split; [exact Hdr|]. split; [eapply commit_post_eq; [exact Hgc|exact Hpost]|].
+          rewrite Hlg. reflexivity.
+        - destruct I3 as [I3 Hlg]. split; [intros q; rewrite I3; apply Hgc|]. rewrite Hlg. reflexivity. }
+      destruct r as [|code b script].
+      + apply Hskip; [intros q; reflexivity|reflexivity].
+      + destruct (Z.leb_spec 400 code) as [Hge|Hlt]; [apply Hskip; [intros q; reflexivity|reflexivity]|].
+        unfold resp_ok in Hr. cbn [snd] in Hr. destruct Hr as [Hs Hd].
+        pose proof (stream_fetch_cases (s_env s) (s_url s) f b script Hs Hd) as H. cbv zeta in H.
+        destruct (stream_fetch (s_env s) (s_url s) f b script) as [f1 res1]. cbn [fst snd] in H.
+        destruct H as [H1 [H2 H3]].
+        destruct res1 as [t|c| |].
+        * cbn [fst snd]. destruct H3 as [Hfl [Hdr Hpost]].
+          split; [exact H1|]. split; [exact H2|].
+          exists [], s, code, b, script, rest. cbn [app].
+          split; [reflexivity|]. split; [reflexivity|]. split; [exact Hlt|]. split; [exact Hfl|].
+          split; [exact Hdr|]. split; [exact Hpost|reflexivity].
+        * destruct H3 as [H3 _]. apply Hskip; assumption.
+        * apply Hskip; assumption.
+        * contradiction.
+  Qed.
 End StreamFetchProofs.
